@@ -39,7 +39,7 @@ func init() {
 		Settle:  6 * time.Second,
 		Setup: func(x *vs.Exec, p explore.Params) {
 			var seq atomic.Int64
-			x.Data["seq"] = &seq
+			x.Put("seq", &seq)
 			x.AddFault(&vs.Fault{
 				Name: "crash",
 				Enabled: func(x *vs.Exec) bool {
@@ -48,8 +48,8 @@ func init() {
 				},
 				Inject: func(x *vs.Exec) {
 					lc := x.Data["lc"].(*liveClient)
-					x.Data["crashSeq"] = seq.Add(1)
-					x.Data["crashAt"] = x.Now()
+					x.Put("crashSeq", seq.Add(1))
+					x.Put("crashAt", x.Now())
 					lc.r.exit()
 				},
 			})
@@ -58,9 +58,9 @@ func init() {
 			seq := x.Data["seq"].(*atomic.Int64)
 			// the plugin writes to its stdout while the session runs (crash point "during stdio streaming")
 			lc := newLive(x, liveOpts{proto: p["proto"], timeout: 3 * time.Second, pStdout: bytes.NewReader(pattern(3, 3000)), syncOut: io.Discard, realStdout: crashRealStdout})
-			x.Data["lc"] = lc
+			x.Put("lc", lc)
 			var ops []*opRec
-			x.Data["ops"] = &ops
+			x.Put("ops", &ops)
 			run := func(name string, need bool, f func() error) *opRec {
 				o := &opRec{name: name, needPlugin: need, startSeq: seq.Add(1), start: x.Now()}
 				ops = append(ops, o)
@@ -77,7 +77,7 @@ func init() {
 				return o
 			}
 			d := newDone(x)
-			x.Data["d"] = d
+			x.Put("d", d)
 			var cp plugin.ClientProtocol
 			var obj interface{}
 			var again func()
@@ -85,7 +85,7 @@ func init() {
 			run("Client", false, func() error { var err error; cp, err = lc.cl.Client(); return err })
 			if cp == nil {
 				run("Kill", false, func() error { lc.cl.Kill(); return nil })
-				x.Data["completed"] = true
+				x.Put("completed", true)
 				return
 			}
 			run("Dispense", p["proto"] == "netrpc", func() error { var err error; obj, err = cp.Dispense("p"); return err })
@@ -229,7 +229,7 @@ func init() {
 				again()
 			}
 			run("Kill", false, func() error { lc.cl.Kill(); return nil })
-			x.Data["completed"] = true
+			x.Put("completed", true)
 		},
 		Check: func(x *vs.Exec, p explore.Params) {
 			lc, _ := x.Data["lc"].(*liveClient)
@@ -242,7 +242,7 @@ func init() {
 			ops := *(x.Data["ops"].(*[]*opRec))
 			crashSeq, crashed := x.Data["crashSeq"].(int64)
 			crashAt, _ := x.Data["crashAt"].(time.Duration)
-			x.Data["nontrivial"] = crashed
+			x.Put("nontrivial", crashed)
 			if x.Data["completed"] != true {
 				x.Fail("L", "host session never finished (blocked: %v) [%s]", x.EndBlocked, desc)
 			}
